@@ -649,6 +649,11 @@ namespace bxdecay0 {
           fe2 = decay0_fe2_mod19(e2, params_);
         }
       } while (f2max * prng_() > fe2);
+      // In the reference program fermi(Z,E) raises its argument to 50 eV in place and fe2_modN(e2)
+      // hands e2 over by reference: a second lepton sampled below 50 eV is emitted with exactly 50 eV.
+      if (e2 < 50.e-6) {
+        e2 = 50.e-6;
+      }
     } else if (modebb == LEGACY_MODEBB_10) {
       // c energy of X-ray is fixed; no angular correlation
       // c          allevents=allevents+1.
